@@ -466,6 +466,70 @@ def contains_prepare(f, tok):
     return any(x.get("k") == "mcall" and x["m"] == "to_proc_gen_prepare" for x in sir.walk(clos[0]["body"]))
 
 
+def collector_rule(ctx):
+    """C07.collector: the three views of "field f is mapped" agree: get_field (used by is_empty and the updater registration),
+    list_fields (the advertised table A) and is_empty (whether an updater is emitted at all)."""
+    ob = ctx.ob
+    tc = ctx.tc
+    obs = []
+    ie = [f for f in tc.fns if f.name == "is_empty" and f.base == "BindingMapKeys" and f.body]
+    wm = [f for f in tc.fns if f.name == "to_proc_gen_write_map" and f.base == "BindingMapKeys" and f.body]
+    if len(ie) != 1 or len(wm) != 1:
+        return [ob("C07.collector/anchor", False, "binding_map.rs", "is_empty / to_proc_gen_write_map not found")]
+    f = ie[0]
+    ok = False
+    d = "unrecognised shape"
+    loops = [n for n in sir.walk(f.body) if n.get("k") == "for" and "keys" in sir.expr_str(n["e"])]
+    if len(loops) == 1:
+        ifs = [n for n in sir.walk(loops[0]["body"]) if n.get("k") == "if"]
+        tail = f.body["stmts"][-1]
+        tail_v = tail["e"].get("v") if tail.get("k") == "expr" and tail["e"].get("k") == "lit" else None
+        if len(ifs) == 1:
+            c = sir.expr_str(ifs[0]["cond"]).replace(" ", "")
+            rets = [n["e"].get("v") for n in sir.walk(ifs[0]["then"]) if n.get("k") == "return" and n.get("e") is not None]
+            mapped_test = re.fullmatch(r"bmc\.get_field\(\w+\)\.is_some\(\)", c) is not None
+            ok = mapped_test and rets == [False] and tail_v is True
+            d = "for key in keys { if %s { return %s } } %s" % (c, rets, tail_v)
+    obs.append(ob("C07.collector/is_empty", ok, ctx.where(f), "is_empty() is false iff some key is mapped: %s" % d,
+                  witness=None if ok else 'data-x="{{a + b}}" with wx:if="{{b}}": `a` stays advertised but its updater is never registered'))
+    # write_map registers under the same test
+    g = wm[0]
+    conds = [sir.expr_str(n["cond"]).replace(" ", "") for n in sir.walk(g.body) if n.get("k") == "if"]
+    ok2 = any(re.fullmatch(r"bmc\.get_field\(\w+\)\.is_some\(\)", c) for c in conds)
+    obs.append(ob("C07.collector/write_map", ok2, ctx.where(g), "updaters are registered for exactly the mapped keys (%s)" % conds))
+    # get_field / list_fields agree: both honour overall_disabled and only report Mapped
+    gf = [h for h in tc.fns if h.name == "get_field" and h.base == "BindingMapCollector" and h.body]
+    lf = [h for h in tc.fns if h.name == "list_fields" and h.base == "BindingMapCollector" and h.body]
+    for nm, hs in (("get_field", gf), ("list_fields", lf)):
+        if len(hs) != 1:
+            obs.append(ob("C07.collector/%s" % nm, False, "binding_map.rs", "%s not found" % nm))
+            continue
+        h = hs[0]
+        txt = " ".join(sir.expr_str(n) for n in sir.walk(h.body) if n.get("k") in ("if", "arm", "return"))
+        dis = any(n.get("k") == "if" and "overall_disabled" in sir.expr_str(n["cond"]) and any(x.get("k") == "return" and sir.expr_str(x.get("e")) == "None" for x in sir.walk(n["then"])) for n in sir.walk(h.body))
+        arms = {}
+        for n in sir.walk(h.body):
+            if n.get("k") == "arm":
+                for v in sir.pat_variants(n["pat"]):
+                    if v in ("Mapped", "Disabled"):
+                        arms[v] = sir.expr_str(n["body"])
+        okh = dis and arms.get("Disabled") == "None" and arms.get("Mapped", "").startswith("Some")
+        obs.append(ob("C07.collector/%s" % nm, okh, ctx.where(h), "%s reports a field only if the collector is not globally disabled and the field is Mapped: disabled-check=%s arms=%s" % (nm, dis, arms)))
+    # disable_field is sticky: add_field after disable_field must not re-map
+    af = [h for h in tc.fns if h.name == "add_field" and h.base == "BindingMapCollector" and h.body]
+    if af:
+        h = af[0]
+        uses_entry = any(n.get("k") == "mcall" and n["m"] in ("or_insert_with", "or_insert") for n in sir.walk(h.body))
+        overwrites = any(n.get("k") == "mcall" and n["m"] == "insert" for n in sir.walk(h.body))
+        obs.append(ob("C07.collector/add_field-sticky", uses_entry and not overwrites, ctx.where(h), "add_field keeps an existing (possibly Disabled) entry: entry().or_insert*=%s, overwriting insert=%s" % (uses_entry, overwrites)))
+    df = [h for h in tc.fns if h.name == "disable_field" and h.base == "BindingMapCollector" and h.body]
+    if df:
+        h = df[0]
+        ok = any(n.get("k") == "mcall" and n["m"] == "insert" and "Disabled" in sir.expr_str(n) for n in sir.walk(h.body))
+        obs.append(ob("C07.collector/disable_field", ok, ctx.where(h), "disable_field overwrites the entry with Disabled: %s" % ok))
+    return obs
+
+
 def run(ctx):
     from rules.c05 import check_iterators
     obs = []
@@ -487,4 +551,5 @@ def run(ctx):
     obs += values_rule(ctx)
     obs += dynamic_rule(ctx)
     obs += emit_rule(ctx)
+    obs += collector_rule(ctx)
     return obs
